@@ -13,3 +13,28 @@ func RealisticEncodings(kind string) []Enc {
 	}
 	return out
 }
+
+// KeyStr is Key with a chosen string form for the key name itself (a Redis server stores key names
+// with the same string encoder as values: integer-encoded when numeric, LZF when long and compressible).
+func (f *File) KeyStr(key []byte, sf StrForm, lf LenForm, typ byte, body []byte) (bodyStart, bodyEnd int) {
+	f.buf.WriteByte(typ)
+	enc, err := appendString(nil, key, sf, lf)
+	if err != nil {
+		enc, _ = appendString(nil, key, StrRaw, LenCanonical)
+	}
+	f.buf.Write(enc)
+	bodyStart = f.buf.Len()
+	f.buf.Write(body)
+	return bodyStart, f.buf.Len()
+}
+
+// AuxStr writes an aux field whose value uses the given string form.
+func (f *File) AuxStr(key, val []byte, sf StrForm) {
+	f.buf.WriteByte(OpAux)
+	f.putString(key, LenCanonical)
+	enc, err := appendString(nil, val, sf, LenCanonical)
+	if err != nil {
+		enc, _ = appendString(nil, val, StrRaw, LenCanonical)
+	}
+	f.buf.Write(enc)
+}
